@@ -155,6 +155,27 @@ fn plan_c01(thorough: bool) -> Plan {
         }
         cases.extend(cs);
     }
+    // queue-shaped workloads: the lowest keys deleted in runs of 1–7 (a leaf of the `wide` / `branch`
+    // seeds holds three keys: whole leading leaves disappear, partly or exactly) while a far leaf is
+    // rewritten in the same commit; then the next run; every seed key audited after each commit
+    for seed in ["wide", "branch"] {
+        let last = if seed == "wide" { 1499 } else { 599 };
+        for a in 1u64..=7 {
+            for b in 1u64..=7 {
+                if !thorough && (a + b) % 2 == 1 && a != 3 && a != 6 {
+                    continue;
+                }
+                let ops = vec![
+                    json!({"c": [[0, "dn", a], [last, "w", 5]]}),
+                    json!({"c": [[a, "dn", b]]}),
+                    json!({"c": [[a + b, "dn", 3], [last / 2, "w", 5]]}),
+                ];
+                let mut cse = mk_case(seed, vec!["seed:all"], &cfg, "values", true)(ops, 2);
+                cse["audit_seed_keys"] = json!(true);
+                cases.push(cse);
+            }
+        }
+    }
     // (d) the same with a reopen inserted at every position (control symbol), reduced alphabet
     let base = enum_commit_histories(2, 4, 2, &a_small, &mk_case("leaf", vec!["seed:0,1,4,5"], &cfg, "values", false));
     cases.extend(with_control_everywhere(&base, &json!({"reopen": {}})));
@@ -167,7 +188,7 @@ fn plan_c01(thorough: bool) -> Plan {
     sort_by_bound(&mut cases);
     let mut p = Plan::new(
         cases,
-        "histx: every history of D commits whose batches deviate from the empty batch in at most B key actions (bound = number of deviations), over colliding key universes, from seed states {empty, leaf(6x1300B), branch(600 keys sharing 30 bytes), bulk(1500 keys), ovf(5MiB value), ovf2(two 70000-byte and one 61381-byte value), mixed2(700 clustered + 60 scattered keys), pfx(450 keys sharing 247 bits + 3 far keys: a branch node built with stopped prefix compression; macro action 'delete a run of 100..400 cluster keys' + in-place rewrite of a far key, every seed key audited)}; action alphabet = read, delete, read-then-delete, write of sizes {0,1,1332,1333,5000,61380,61381,70000}, read-then-write; reopen inserted at every position for a sub-family; after every commit Nomt::read and Session::read of every universe key are compared with a BTreeMap model. Non-trivial = at least one write was committed; distinct = distinct (case, final-state digest).",
+        "histx: every history of D commits whose batches deviate from the empty batch in at most B key actions (bound = number of deviations), over colliding key universes, from seed states {empty, leaf(6x1300B), branch(600 keys sharing 30 bytes), bulk(1500 keys), ovf(5MiB value), ovf2(two 70000-byte and one 61381-byte value), mixed2(700 clustered + 60 scattered keys), pfx(450 keys sharing 247 bits + 3 far keys: a branch node built with stopped prefix compression; macro action 'delete a run of 100..400 cluster keys' + in-place rewrite of a far key, every seed key audited); queue-shaped workloads on wide / branch (the lowest keys deleted in runs of 1..7 while a far leaf is rewritten, three commits, every seed key audited)}; action alphabet = read, delete, read-then-delete, write of sizes {0,1,1332,1333,5000,61380,61381,70000}, read-then-write; reopen inserted at every position for a sub-family; after every commit Nomt::read and Session::read of every universe key are compared with a BTreeMap model. Non-trivial = at least one write was committed; distinct = distinct (case, final-state digest).",
     );
     p.budget_s = if thorough { 1500 } else { 55 };
     p.assumptions = vec![
